@@ -4,6 +4,10 @@ import (
 	"context"
 	"fmt"
 	"os"
+	"sort"
+	"strings"
+
+	"github.com/google/uuid"
 
 	"github.com/element-of-surprise/coercion/plugins/registry"
 	"github.com/element-of-surprise/coercion/workflow/storage"
@@ -109,9 +113,65 @@ func (h *Handle) Abandon() {
 	}
 }
 
-// SqliteTables are the tables of the sqlite vault and the column that carries the plan id.
-var SqliteTables = []struct{ Table, Column string }{
-	{"plans", "id"}, {"blocks", "plan_id"}, {"checks", "plan_id"}, {"sequences", "plan_id"}, {"actions", "plan_id"},
+// ---------------------------------------------------------------------------------------------------------------------
+// Schema-agnostic row accounting for the sqlite arms.
+//
+// No statement names a table or a column. The tables are therefore discovered (sqlite_master), and the column that ties a
+// row to a plan is discovered per table (pragma_table_info): "plan_id" where it exists, else "id" (the table of the plans
+// themselves), else the table is not plan-scoped and only takes part in totals. Counts are always used RELATIVE to another
+// measurement of the same vault (before/after an operation, or the baseline of the freshly opened empty vault), never
+// against a model of "one row per object", so that extra tables, extra rows of the schema itself and other row layouts do
+// not matter.
+
+// Rows is a measurement of the user tables of a sqlite vault.
+type Rows struct {
+	Total   int
+	ByTable map[string]int
+}
+
+// Equal reports whether two measurements agree table by table.
+func (r Rows) Equal(o Rows) bool {
+	if r.Total != o.Total || len(r.ByTable) != len(o.ByTable) {
+		return false
+	}
+	for t, n := range r.ByTable {
+		if m, ok := o.ByTable[t]; !ok || m != n {
+			return false
+		}
+	}
+	return true
+}
+
+func (r Rows) String() string {
+	names := make([]string, 0, len(r.ByTable))
+	for t := range r.ByTable {
+		names = append(names, t)
+	}
+	sort.Strings(names)
+	var sb strings.Builder
+	fmt.Fprintf(&sb, "%d rows {", r.Total)
+	for i, t := range names {
+		if i > 0 {
+			sb.WriteString(" ")
+		}
+		fmt.Fprintf(&sb, "%s:%d", t, r.ByTable[t])
+	}
+	sb.WriteString("}")
+	return sb.String()
+}
+
+func quoteIdent(s string) string { return `"` + strings.ReplaceAll(s, `"`, `""`) + `"` }
+
+func queryStrings(conn *zsqlite.Conn, q string, args ...any) ([]string, error) {
+	var out []string
+	err := sqlitex.ExecuteTransient(conn, q, &sqlitex.ExecOptions{
+		Args: args,
+		ResultFunc: func(stmt *zsqlite.Stmt) error {
+			out = append(out, stmt.ColumnText(0))
+			return nil
+		},
+	})
+	return out, err
 }
 
 func countQuery(conn *zsqlite.Conn, q string, args ...any) (int, error) {
@@ -132,30 +192,71 @@ func countQuery(conn *zsqlite.Conn, q string, args ...any) (int, error) {
 	return n, nil
 }
 
-// Rows counts the rows of every table; with planID != "" only the rows that carry that plan id.
-func (h *Handle) Rows(planID string) (RowCounts, error) {
-	var r RowCounts
-	if h.Sqlite == nil {
-		return r, fmt.Errorf("row counting needs a sqlite arm")
+// SqliteRows measures the user tables of a sqlite vault through Vault.Pool(). With planID == uuid.Nil every row of every
+// user table is counted. Otherwise only the rows that belong to that plan are counted: in every table that has a
+// "plan_id" column the rows whose plan_id is the id, in a table without "plan_id" but with an "id" column the rows whose id
+// is the id; tables with neither column do not take part. The id is matched in its canonical text form, in upper case,
+// without dashes and as the 16 raw bytes, so the encoding of ids in the rows does not matter.
+func SqliteRows(v *sqlite.Vault, planID uuid.UUID) (Rows, error) {
+	r := Rows{ByTable: map[string]int{}}
+	if v == nil {
+		return r, fmt.Errorf("row counting needs a sqlite vault")
 	}
-	pool := h.Sqlite.Pool()
+	pool := v.Pool()
 	conn, err := pool.Take(context.Background())
 	if err != nil {
 		return r, err
 	}
 	defer pool.Put(conn)
-	dst := []*int{&r.Plans, &r.Blocks, &r.Checks, &r.Sequences, &r.Actions}
-	for i, t := range SqliteTables {
+	tables, err := queryStrings(conn, "SELECT name FROM sqlite_master WHERE type = 'table' AND name NOT LIKE 'sqlite_%' ORDER BY name")
+	if err != nil {
+		return r, fmt.Errorf("listing tables: %w", err)
+	}
+	if len(tables) == 0 {
+		return r, fmt.Errorf("the store has no tables")
+	}
+	for _, t := range tables {
 		var n int
-		if planID == "" {
-			n, err = countQuery(conn, "SELECT COUNT(*) FROM "+t.Table)
+		if planID == uuid.Nil {
+			n, err = countQuery(conn, "SELECT COUNT(*) FROM "+quoteIdent(t))
 		} else {
-			n, err = countQuery(conn, "SELECT COUNT(*) FROM "+t.Table+" WHERE "+t.Column+" = ?", planID)
+			cols, cerr := queryStrings(conn, "SELECT name FROM pragma_table_info(?)", t)
+			if cerr != nil {
+				return r, fmt.Errorf("columns of %s: %w", t, cerr)
+			}
+			col := ""
+			for _, c := range cols {
+				if strings.EqualFold(c, "plan_id") {
+					col = c
+				}
+			}
+			if col == "" {
+				for _, c := range cols {
+					if strings.EqualFold(c, "id") {
+						col = c
+					}
+				}
+			}
+			if col == "" {
+				continue // not a plan-scoped table
+			}
+			text := planID.String()
+			n, err = countQuery(conn, "SELECT COUNT(*) FROM "+quoteIdent(t)+" WHERE "+quoteIdent(col)+" IN (?, ?, ?, ?)",
+				text, strings.ToUpper(text), strings.ReplaceAll(text, "-", ""), planID[:])
 		}
 		if err != nil {
-			return r, fmt.Errorf("counting %s: %w", t.Table, err)
+			return r, fmt.Errorf("counting %s: %w", t, err)
 		}
-		*dst[i] = n
+		r.ByTable[t] = n
+		r.Total += n
 	}
 	return r, nil
+}
+
+// Rows measures the vault's tables (see SqliteRows); planID == uuid.Nil counts everything.
+func (h *Handle) Rows(planID uuid.UUID) (Rows, error) {
+	if h.Sqlite == nil {
+		return Rows{}, fmt.Errorf("row counting needs a sqlite arm")
+	}
+	return SqliteRows(h.Sqlite, planID)
 }
